@@ -38,6 +38,9 @@ def alphabet(keys, rich=True):
         ops.append(['pop_at', i])
     ops.append(['pop', keys[0]])
     ops.append(['sort'])
+    # the arguments of list.sort: a key that ranks several keys equal, descending order (stable: ties keep their order)
+    for variant in ('rev', 'len', 'len-rev', 'const-rev', 'last-rev'):
+        ops.append(['sort', variant])
     ops.append(['reverse'])
     ops.append(['extend', [keys[0], keys[-1]], True, 'pairs'])
     ops.append(['extend', [keys[-1], keys[1 % len(keys)]], False, 'pairs'])
@@ -49,6 +52,10 @@ def alphabet(keys, rich=True):
     ops.append(['update', [keys[-1], keys[0]]])
     ops.append(['setdefault', keys[1 % len(keys)]])
     return ops
+
+
+SORT_ARGS = {'plain': (None, False), 'rev': (None, True), 'len': (len, False), 'len-rev': (len, True),
+             'const-rev': (lambda k: 0, True), 'last-rev': (lambda k: k[-1:], True)}
 
 
 def op_features(op, before_keys):
@@ -103,7 +110,13 @@ def apply_real(m, op, val, MARKER):
         elif t == 'pop_at':
             m.pop_at(op[1])
         elif t == 'sort':
-            m.sort()
+            kf, rev = SORT_ARGS[op[1] if len(op) > 1 else 'plain']
+            if kf is None and not rev:
+                m.sort()
+            elif kf is None:
+                m.sort(reverse=True)
+            else:
+                m.sort(key=kf, reverse=rev)
         elif t == 'reverse':
             m.reverse()
         elif t == 'append':
@@ -136,7 +149,7 @@ def apply_model(md, op, val, MARKER):
         elif t == 'pop_at':
             md.pop_at(op[1])
         elif t == 'sort':
-            md.sort()
+            md.sort(*SORT_ARGS[op[1] if len(op) > 1 else 'plain'])
         elif t == 'reverse':
             md.reverse()
         elif t == 'append':
